@@ -638,8 +638,12 @@ class GBNFCompiler:
         return "[^\\n]*"
 
     def _compile_date(self) -> str:
-        """Compile DATE constraint to YYYY-MM-DD pattern."""
-        return '[0-9][0-9][0-9][0-9] "-" [0-9][0-9] "-" [0-9][0-9]'
+        """Compile DATE constraint to quoted YYYY-MM-DD pattern.
+
+        A bare 2024-01-15 is read by the lexer as three numbers (2024 -01 -15), which
+        DATE then rejects; the quoted form reads back as the date text.
+        """
+        return '"\\"" [0-9][0-9][0-9][0-9] "-" [0-9][0-9] "-" [0-9][0-9] "\\""'
 
     def _compile_iso8601(self) -> str:
         """Compile ISO8601 constraint to datetime pattern."""
@@ -647,7 +651,8 @@ class GBNFCompiler:
         date = '[0-9][0-9][0-9][0-9] "-" [0-9][0-9] "-" [0-9][0-9]'
         time = '"T" [0-9][0-9] ":" [0-9][0-9] ":" [0-9][0-9]'
         tz = '("Z" | ("+" | "-") [0-9][0-9] ":" [0-9][0-9])?'
-        return f"{date} ({time} {tz})?"
+        # Quoted for the same reason as DATE: the bare text does not read back as one value
+        return f'"\\"" {date} ({time} {tz})? "\\""'
 
     def _escape_literal(self, value: str) -> str:
         """Escape special characters for GBNF literal.
